@@ -9,7 +9,7 @@ TO DO:
 """
 
 from plasTeX import Command, Environment
-from plasTeX.Base.LaTeX.Crossref import ref, pageref
+from plasTeX.Base.LaTeX import Crossref
 import urllib.parse
 
 def addBaseURL(self, urlarg):
@@ -21,8 +21,11 @@ def addBaseURL(self, urlarg):
 
 # Basic macros
 
-ref.args = '* %s' % ref.args
-pageref.args = '* %s' % pageref.args
+class ref(Crossref.ref):
+    args = '* %s' % Crossref.ref.args
+
+class pageref(Crossref.pageref):
+    args = '* %s' % Crossref.pageref.args
 
 class href(Command):
     args = 'url:url self'
